@@ -351,6 +351,22 @@ Fixpoint sd_loop (f : V -> T) (grad : V -> V) (tau discount : T) (mni : nat) (es
       | e => ([], SdLs e)
       end
   end.
+(* the alpha the line-search OBJECT holds when the run above ends (self.alpha = |alpha| after every accepted
+   step): a later run that reuses the object with estimate_step=True starts from it -- and from nothing else
+   (the object caches no function value: fx is evaluated at the point it is called with) *)
+Fixpoint sd_alpha_after (f : V -> T) (grad : V -> V) (tau discount : T) (mni : nat) (estimate : bool)
+    (tol : T) (fuel : nat) (alpha_st : T) (x : V) : T :=
+  match fuel with
+  | O => alpha_st
+  | S k =>
+      let g := grad x in
+      let dd := - ipV g g in
+      if nabs dd <? tol then alpha_st else
+      match bt_search f tau discount mni estimate alpha_st x (scalV (- none_) g) dd with
+      | LsOk step => sd_alpha_after f grad tau discount mni estimate tol k (nabs step) (addV x (scalV (- step) g))
+      | _ => alpha_st
+      end
+  end.
 End Generic.
 
 (* ====================================================================== *)
